@@ -605,10 +605,15 @@ pub fn gen_config(rng: &mut Rng, mal: usize, tags: &mut Vec<String>) -> Value {
   let idl_ext = rng.coin();
   idler_explicit.insert(if idl_ext { "theta_external_deg" } else { "theta_deg" }.into(), json!(short(rng.range(0., 4.))));
   idler_explicit.insert("waist_um".into(), json!(short(rng.log_range(20., 300.))));
+  let mut idler_tags: Vec<String> = vec![];
   match rng.below(3) {
     0 => { idler_explicit.insert("waist_position_um".into(), json!("auto")); }
     1 => { idler_explicit.insert("waist_position_um".into(), json!(short(rng.range(-1., 1.) * length))); }
-    _ => {}
+    _ => idler_tags.push("omit:idler.waist_position_um".into()),
+  }
+  if rng.below(4) == 0 {
+    idler_explicit.remove("phi_deg");
+    idler_tags.push("omit:idler.phi_deg".into());
   }
   let mut pp = Value::Null;
   let mut pp_present = false;
@@ -621,8 +626,13 @@ pub fn gen_config(rng: &mut Rng, mal: usize, tags: &mut Vec<String>) -> Value {
   } else if rng.below(3) == 0 {
     pp_present = true; // explicit null = off
   }
-  if pp_mode != 0 && rng.coin() {
-    pp.as_object_mut().unwrap().insert("apodization".into(), apod_value(rng));
+  let mut apod_omitted = false;
+  if pp_mode != 0 {
+    if rng.coin() {
+      pp.as_object_mut().unwrap().insert("apodization".into(), apod_value(rng));
+    } else {
+      apod_omitted = true;
+    }
   }
   // ---- malformations / boundary classes
   match mal {
@@ -736,7 +746,10 @@ pub fn gen_config(rng: &mut Rng, mal: usize, tags: &mut Vec<String>) -> Value {
   match idler_mode {
     0 => tags.push("omit:idler".into()),
     1 => { cfg.insert("idler".into(), json!("auto")); }
-    _ => { cfg.insert("idler".into(), Value::Object(idler_explicit)); }
+    _ => { cfg.insert("idler".into(), Value::Object(idler_explicit)); tags.extend(idler_tags); }
+  }
+  if apod_omitted && pp.get("poling_period_um").is_some() && pp.get("apodization").is_none() {
+    tags.push("omit:periodic_poling.apodization".into());
   }
   if pp_present {
     cfg.insert("periodic_poling".into(), pp);
